@@ -892,6 +892,12 @@ def _isnull(x):
     return x["kind"] == "arrow" and all(d == "N" for d in x["data"])
 
 
+def _dropped(f, x):
+    """An Arrow array without a valid entry (all null, or empty) is dropped -- but only as a plain field: `score` and
+    `rank` are converted to NumPy first (nulls become NaN) and must have the list's length like any other array."""
+    return f not in (0, 1) and _isnull(x)
+
+
 def _obligation_broken(case, obs):
     """The caller obligations under which the property is stated (ASSUMPTIONS): identifiers and numbers given
     together -- or a vocabulary attached to a list that was built from both without one -- agree with the
@@ -935,7 +941,7 @@ def oracle(case, obs):
             n = _expected_len(a, src)
             # wrong shapes must be rejected
             if n is not None:
-                arrays = [(FLABEL[f], x) for f, x in a["fields"] if x is not False and not _isnull(x) and not (f == 1 and a["ordered"] is False)]
+                arrays = [(FLABEL[f], x) for f, x in a["fields"] if x is not False and not _dropped(f, x) and not (f == 1 and a["ordered"] is False)]
                 if isinstance(a["scores"], dict) and "scalar" not in a["scores"]:
                     arrays.append(("scores", a["scores"]))
                 if a["nums"] is not None and (a["ids"] is not None or src is not None):
@@ -969,7 +975,7 @@ def oracle(case, obs):
                     want = src["fields"][j]
                     if f in over:
                         x = over[f]
-                        want = None if (x is False or _isnull(x)) else [None if d in (None, "N") else d for d in x["data"]]
+                        want = None if (x is False or _dropped(f, x)) else [None if d in (None, "N") else d for d in x["data"]]
                     if f == 0:
                         sc = a["scores"]
                         if sc is False:
